@@ -249,6 +249,26 @@ fn main() {
 '''
 
 
+def replay_public(v, scratch):
+    """the harness body uses only the public API: run it natively with concrete fill-ins for kani::any (its assertions
+    become panics whose message names the violated role)"""
+    import re
+    h = v["harness"]
+    m = re.match(r"(c16_\w+_bytes)_n(\d+)$", h)
+    if not m:
+        return None, "no native replay template for %s" % h
+    body = OBJ % dict(n=int(m.group(2)))
+    fn = [p for p in re.split(r"(?m)^(?=fn )", body) if p.startswith("fn " + h + "(")][0]
+    fn = re.sub(r"(?m)^\s*kani::cover!.*$", "", fn).replace("kani::any()", "fill()").replace("crate::", "dryoc::")
+    main = ("#![allow(unused)]\nuse dryoc::types::*;\nuse dryoc::constants::*;\n"
+            "fn fill<const N: usize>() -> [u8; N] { let mut a = [0u8; N]; for i in 0..N { a[i] = (i * 37 + 1) as u8; } a }\n" + fn + "\nfn main() { %s(); println!(\"agree\"); }\n" % h)
+    outs = runner.native_run(scratch, "c16", main, features=["serde"])
+    v["replay_input"] = {"program": main}
+    role = v["role"].split(":")[0]
+    repro = any(rc not in (0, None) and role in o for _, rc, o in outs)
+    return repro, "; ".join("%s rc=%s %s" % (p_, rc, o.strip()[-300:]) for p_, rc, o in outs)
+
+
 def replay(v, scratch):
     h = v["harness"]
     w = (v.get("witness", {}).get("W_0") or [])
@@ -269,6 +289,8 @@ def replay(v, scratch):
         ty, fixed, nightly = "dryoc::protected::LockedBytes", None, True
     elif h.startswith("c16_lockedarray4"):
         ty, fixed, nightly = "dryoc::protected::Locked<dryoc::protected::HeapByteArray<4>>", 4, True
+    elif "_bytes_n" in h or h == "c16_tryfrom_slice_stack":
+        return replay_public(v, scratch)
     else:
         return None, "no native replay template for %s" % h
     via_json = "seq" in h
